@@ -76,7 +76,7 @@ fn check_string(ctx: &mut Ctx, family: &str, idx: u64, s: &str) {
 
 pub fn run(ctx: &mut Ctx) {
     let alpha: [&str; 8] = ["a", "A", "1", "-", "_", ".", "\\", "é"];
-    let lmax = if ctx.slow_tool { 2 } else { ctx.tier.pick(6usize, 8usize) };
+    let lmax = if ctx.slow_tool { 2 } else { ctx.tier.pick(7usize, 8usize) };
     if ctx.family_active("strings") {
         let mut base = 0u64;
         for l in 0..=lmax {
@@ -85,6 +85,9 @@ pub fn run(ctx: &mut Ctx) {
                 let idx = base + k;
                 if !ctx.take("strings", idx) {
                     continue;
+                }
+                if ctx.stop("strings") {
+                    break;
                 }
                 let s: String = digits(k, 8, l).into_iter().map(|d| alpha[d]).collect();
                 check_string(ctx, "strings", idx, &s);
